@@ -47,6 +47,15 @@ ContentOK(e) ==
   /\ \A j \in 1..Len(exp.calls) : CallAgrees(e.calls[j], exp.calls[j], e.words)
   /\ ResultAgrees(e, exp)
 
+\* Framing by word counts alone (no grammar): the 1-based word indexes at which instructions start, and
+\* the index after the last complete frame.  The walk stops at a zero count or a frame reaching past the end.
+RECURSIVE FrameWalk(_, _, _)
+FrameWalk(ws, p, acc) ==
+  IF p > Len(ws) THEN [starts |-> acc, endp |-> p]
+  ELSE LET wc == ws[p][1] IN
+       IF wc = 0 \/ p + wc - 1 > Len(ws) THEN [starts |-> acc, endp |-> p]
+       ELSE FrameWalk(ws, p + wc, Append(acc, p))
+
 \* C14, independently of the grammar: order, at-most-once, obedience to the answers
 ShapeOK(e) ==
   LET n == Len(e.calls)
@@ -67,6 +76,14 @@ ShapeOK(e) ==
   \* finalize iff parsed to the end without error
   /\ (r = <<"Ok">> => name(n) = "finalize")
   /\ (parseErr => name(n) # "finalize")
+  \* "one call per instruction in stream order": the k-th instruction callback is for the k-th frame of the
+  \* stream, and a parse that ends in finalize has called back for every frame up to the end of the words
+  /\ (Len(e.words) >= 5 =>
+        LET fw == FrameWalk(e.words, 6, <<>>)
+            k == Cardinality({j \in 1..n : name(j) = "inst"}) IN
+        /\ k <= Len(fw.starts)
+        /\ \A i \in 1..k : e.calls[2 + i].inst.op = e.words[fw.starts[i]][2]
+        /\ (r = <<"Ok">> => k = Len(fw.starts) /\ fw.endp = Len(e.words) + 1))
 
 ParseCode(e) ==
   IF IsPanic(e.result) THEN 4 + 1
